@@ -12,6 +12,7 @@ FQ = 24
 TQ = 6
 
 GEOMS = {
+    "odd": dict(df=1.7, dt=0.7, fmin=5.0e8),        # k * (df/dt) * dt / df is not exactly k for some k
     "dyadic": dict(df=1.0, dt=1.0, fmin=100.0),
     "bl_hires": dict(df=2.7939677238464355, dt=18.253611008, fmin=6095211984.124035),
     "coarse": dict(df=2929687.5, dt=0.0010737418240000001, fmin=1.0e9),
@@ -67,7 +68,8 @@ def components(c, geo, gname, t_offset_rows=0, persistent=False):
         return 2.0 + np.mod(tau, 3)
 
     def f_profile(f, fc):
-        return np.maximum(0.0, c["wd"] - np.abs(f - fc) / unit)
+        d = (f - fc) / unit
+        return np.where(d >= 0, np.maximum(0.0, c["wd"] - d), np.maximum(0.0, c["wd"] + 2 * d))
 
     def bp_fn(f):
         uq = np.rint((np.asarray(f, dtype=float) - fmin) / unit)
@@ -126,6 +128,14 @@ def components(c, geo, gname, t_offset_rows=0, persistent=False):
         o0 = -0.25 if (b0 % 2) else 0.25
         o1 = 0.25 if (b1 % 2) else -0.25
         bnd = (fmin + (b0 + o0) * df, fmin + (b1 + o1) * df)
+        from astropy import units as u
+        which = (c["p0"] + c["wd"] + b0) % 4             # plain floats, or quantities in Hz / kHz / MHz
+        if which == 1:
+            bnd = (bnd[0] * u.Hz, bnd[1] * u.Hz)
+        elif which == 2:
+            bnd = ((bnd[0] * u.Hz).to(u.kHz), (bnd[1] * u.Hz).to(u.kHz))
+        elif which == 3:
+            bnd = ((bnd[0] * u.Hz).to(u.MHz), (bnd[1] * u.Hz).to(u.GHz))
     return path, tp, f_profile, bp, bnd
 
 
